@@ -85,8 +85,19 @@ Proof. exact (clog2_least N c). Qed.
 Theorem C05_clog2_total N : 1 <= N -> h_clog2 N = Ok (Z.log2_up N).
 Proof. exact (clog2_ok N). Qed.
 
+(* the functions GENERATED from helpers.py on this run equal the model the theorems above are about *)
 Theorem C05_clog2_generated N : gen_clog2 N = h_clog2 N.
 Proof. exact (gen_clog2_ok N). Qed.
+Theorem C05_trunc_generated n u s : gen_trunc n u s = h_trunc n u (wspec_w s) (wspec_ty s).
+Proof. exact (gen_trunc_ok n u s). Qed.
+Theorem C05_zext_generated n u s : gen_zext n u s = h_zext n u (wspec_w s) (wspec_ty s).
+Proof. exact (gen_zext_ok n u s). Qed.
+Theorem C05_sext_generated n u s : wfn n -> inrange n u -> gen_sext n u s = h_sext n u (wspec_w s) (wspec_ty s).
+Proof. exact (gen_sext_ok n u s). Qed.
+Theorem C05_reduce_and_generated n u : 0 <= n -> gen_reduce_and n u = Ok (h_reduce_and n u).
+Proof. exact (gen_reduce_and_ok n u). Qed.
+Theorem C05_reduce_or_generated n u : gen_reduce_or n u = Ok (h_reduce_or n u).
+Proof. exact (gen_reduce_or_ok n u). Qed.
 
 Example C05_nonvacuous : bits_getitem 8 171 0 (ISlice (Some 2) (Some 6) None) = Ok (4, 10)
   /\ bits_getitem 8 171 0 (ISlice (Some 2) (Some 0) None) = Err EIndex
@@ -100,4 +111,5 @@ Print Assumptions C05_bit_write_frames. Print Assumptions C05_concat. Print Assu
 Print Assumptions C05_concat_too_wide. Print Assumptions C05_trunc. Print Assumptions C05_trunc_guard.
 Print Assumptions C05_zext. Print Assumptions C05_zext_guard. Print Assumptions C05_sext. Print Assumptions C05_sext_guard.
 Print Assumptions C05_reduce_and. Print Assumptions C05_reduce_or. Print Assumptions C05_reduce_xor.
-Print Assumptions C05_clog2. Print Assumptions C05_clog2_total. Print Assumptions C05_clog2_generated.
+Print Assumptions C05_clog2. Print Assumptions C05_clog2_total. Print Assumptions C05_clog2_generated. Print Assumptions C05_trunc_generated. Print Assumptions C05_zext_generated.
+Print Assumptions C05_sext_generated. Print Assumptions C05_reduce_and_generated. Print Assumptions C05_reduce_or_generated.
